@@ -9,7 +9,7 @@ stronger than the transform's trigger (and accumulated across fields monotonical
 import json
 import re
 
-from .. import core, emit, guards, parser_rules as pr, transforms, vt
+from .. import core, emit, guards, parser_rules as pr, transforms, vt, inline
 
 KEY_PRESERVING = {'identity', 'quote-select'}
 
@@ -73,7 +73,6 @@ def run(ctx, rep):
 
 def k1(ctx, rep, T):
     sites = pr.field_sites(ctx)
-    rep.floor('K1', 'RustField construction sites', len(sites), 2)
     for f, st in sites:
         site = {'file': f['file'], 'line': st['line']}
         key = f"{f['name']}:RustField.id"
@@ -128,46 +127,25 @@ def k2(ctx, rep, T):
     otxt = json.dumps(orig)
     ok_o = '"r#"' in otxt and '"replace"' in otxt and f'"root": "{params[0]}"' in otxt
     rep.check(ok_o, 'K2', 'original:raw-prefix-removed', 'original = ident.to_string() with r# removed', f'get_ident: Id.original is not the identifier with the raw prefix removed: {vt.show(orig)[:120]}', site)
-    # renamed: serde(rename) if present else rename_all_to_case(original, rule)
-    r = ren
-    while isinstance(r, dict) and r.get('k') == 'var':
-        r = r['v']
-    shape = None
-    if isinstance(r, dict) and r.get('k') == 'cond':
-        c = r['c']
-        if isinstance(c, dict) and c.get('k') == 'iflet' and 'Some' in ''.join(c.get('variants', [])):
-            sc = vt.strip(c['scrut'])
-            t, e = r['t'], r['e']
-            if isinstance(sc, dict) and sc.get('f') == 'serde_rename':
-                shape = (sc, t, e)
-    if isinstance(r, dict) and r.get('k') == 'call' and r.get('f') in ('unwrap_or_else', 'unwrap_or') and isinstance(r.get('recv'), dict) and vt.strip(r['recv']).get('f') == 'serde_rename':
-        e = r['args'][0]
-        e = e.get('body', e) if isinstance(e, dict) else e
-        shape = (vt.strip(r['recv']), {'k': 'payload', 'of': r['recv'], 'variant': 'Some'}, e)
-    if shape is None:
-        rep.fail('K2', 'renamed:precedence', f"get_ident: Id.renamed is not `serde(rename) if present, else rename_all(original)`: {vt.show(ren)[:160]}", site)
-        return
-    sc, t, e = shape
-    attrs_ok = vt.show(vt.strip(sc['args'][0])) == params[1] if sc.get('args') else False
-    tt = t
-    while isinstance(tt, dict) and tt.get('k') == 'var':
-        tt = tt['v']
-    then_ok = isinstance(tt, dict) and tt.get('k') == 'payload' and tt.get('variant') == 'Some'
-    ee = e
-    while isinstance(ee, dict) and ee.get('k') == 'var':
-        ee = ee['v']
-    else_ok = isinstance(ee, dict) and ee.get('k') == 'call' and ee.get('f') == 'rename_all_to_case' and len(ee.get('args', [])) == 2
+    # renamed: serde(rename) if present else rename_all_to_case(original, rule) — decided by partial evaluation of the
+    # value of Id.renamed under the two outcomes of serde_rename(<attrs parameter>), whatever the control-flow idiom
+    def is_sr(x):
+        x = vt.unvar(x)
+        return isinstance(x, dict) and x.get('k') == 'call' and x.get('f') == 'serde_rename' and x.get('args') and vt.show(vt.strip(x['args'][0])) == params[1]
+    got_some = vt.strip(vt.peval(ren, lambda sc: 'Some' if is_sr(sc) else None))
+    got_none = vt.strip(vt.peval(ren, lambda sc: 'None' if is_sr(sc) else None))
+    seen_sr = any(is_sr(x) for x in vt.walk(ren))
+    then_ok = isinstance(got_some, dict) and got_some.get('k') == 'payload' and got_some.get('variant') == 'Some' and is_sr(got_some.get('of'))
+    else_ok = isinstance(got_none, dict) and got_none.get('k') == 'call' and got_none.get('f') == 'rename_all_to_case' and len(got_none.get('args', [])) == 2
     if else_ok:
-        a0 = json.dumps(ee['args'][0])
-        else_ok = ('"r#"' in a0 or '"name": "original"' in a0) and vt.show(vt.strip(ee['args'][1])) == params[2]
-    rep.check(attrs_ok and then_ok and else_ok, 'K2', 'renamed:precedence', 'renamed = serde_rename(attrs) ?? rename_all_to_case(original, rule)',
-              f"get_ident: Id.renamed = `{vt.show(ren)[:200]}` — expected the serde(rename) value of these attrs when present, otherwise the container rule applied to the prefix-stripped identifier", site)
+        else_ok = vt.show(vt.strip(got_none['args'][0])) == vt.show(vt.strip(orig)) and vt.show(vt.strip(got_none['args'][1])) == params[2]
+    rep.check(seen_sr and then_ok and else_ok, 'K2', 'renamed:precedence', 'renamed = serde_rename(attrs) ?? rename_all_to_case(original, rule)',
+              f"get_ident: Id.renamed = `{vt.show(ren)[:200]}` — expected the serde(rename) value of these attrs when present (got `{vt.show(got_some)[:60]}`), otherwise the container rule applied to the prefix-stripped identifier (got `{vt.show(got_none)[:80]}`)", site)
     sr = flds.get('serde_rename')
     # serde_rename looks for `rename` under serde
-    callee, names, consts = pr.attr_lookup_spec(ctx, 'serde_rename')
-    rep.check(names == ['rename'] and 'SERDE' in consts, 'K2', 'serde_rename:name', 'rename under serde', f'serde_rename looks for {names} under {consts}', site)
-    callee, names, consts = pr.attr_lookup_spec(ctx, 'serde_rename_all')
-    rep.check(names == ['rename_all'] and 'SERDE' in consts, 'K2', 'serde_rename_all:name', 'rename_all under serde', f'serde_rename_all looks for {names} under {consts}', site)
+    for helper, want in (('serde_rename', 'rename'), ('serde_rename_all', 'rename_all')):
+        closed, open_ = pr.lookup_closed(ctx, helper)
+        rep.check(closed == {('SERDE', want, 'NameValue')} and not open_, 'K2', f'{helper}:name', f'{want} = ".." under serde', f'{helper} looks for {sorted(closed)} {sorted(map(str, open_))} — expected the name-value argument `{want}` of #[serde(..)] only', site)
 
 
 def callers_envs(fns, g):
@@ -197,7 +175,7 @@ def k3(ctx, rep, T):
     cache = {}
     total = 0
     for be, (struct, file) in emit.BACKENDS.items():
-        fns = [g for g in ctx.astq['functions'] if g['file'].endswith(file)]
+        fns = inline.file_views(ctx, file)
         occ = []  # (fn, site, conds, seq, ix, cls, lossy, unknown, frames)
         for g in fns:
             for s in g['sites']:
